@@ -253,6 +253,15 @@ func (h *ShelleyBlockHeader) UnmarshalCBOR(cborData []byte) error {
 	return nil
 }
 
+func (h *ShelleyBlockHeader) MarshalCBOR() ([]byte, error) {
+	// Return the original CBOR if available so that re-encoding a decoded
+	// object reproduces the exact bytes it was decoded from
+	if h.Cbor() != nil {
+		return h.Cbor(), nil
+	}
+	return cbor.EncodeGeneric(h)
+}
+
 func (h *ShelleyBlockHeader) Hash() common.Blake2b256 {
 	if h.hash == nil {
 		tmpHash := common.Blake2b256Hash(h.Cbor())
